@@ -3,7 +3,6 @@ package zygo
 import (
 	"fmt"
 	"reflect"
-	"runtime"
 )
 
 // call Go methods
@@ -18,15 +17,13 @@ func CallGoMethodFunction(env *Zlisp, name string, args []Sexp) (Sexp, error) {
 	// protect against bad calls/bad reflection
 	var wasPanic bool
 	var recovered interface{}
-	tr := make([]byte, 16384)
-	trace := &tr
+	var trace string
 	sx, err := func() (Sexp, error) {
 		defer func() {
 			recovered = recover()
 			if recovered != nil {
 				wasPanic = true
-				nbyte := runtime.Stack(*trace, false)
-				*trace = (*trace)[:nbyte]
+				trace = panicTrace(".CallGoMethodFunction")
 			}
 		}()
 
@@ -209,7 +206,7 @@ func CallGoMethodFunction(env *Zlisp, name string, args []Sexp) (Sexp, error) {
 	if wasPanic {
 		return SexpNull, fmt.Errorf("\n recovered from panic "+
 			"during CallGo. panic on = '%v'\n"+
-			"stack trace:\n%s\n", recovered, string(*trace))
+			"stack trace:\n%s\n", recovered, trace)
 	}
 	return sx, err
 }
